@@ -451,7 +451,7 @@ class C15(Check):
                    "eight trees share one program run (marker line, reset of gx/gb, then the tree's statements); a group whose run differs "
                    "from the model in any line is re-run tree by tree, and a group that differs although every tree passes alone is reported as such"]
     chunksize = 16
-    quick_cap_s = 45
+    quick_cap_s = 300
 
     def layers(self, tier):
         d1 = depth1()
